@@ -22,9 +22,10 @@
 (* Named deviations ("dialect" record d).  The standard format is d = Std. *)
 (* Each flag describes one place where the library under test differed     *)
 (* from the published format when this specification was written (tail,     *)
-(* pathkey, rawtable, oneblock were repaired in /repo by d86b8d5, f4d4c14, *)
-(* 9cf2783, 0f74d94: the library as coded is the Std dialect now; they are  *)
-(* kept as must-refute variants, crclayout is still open).  The flags exist *)
+(* pathkey, rawtable, oneblock, crclayout were repaired in /repo by        *)
+(* d86b8d5, f4d4c14, 9cf2783, 0f74d94, 7734a50): the library as coded is   *)
+(* the Std dialect now and every flag is a must-refute variant.  The flags *)
+(* exist                                                                   *)
 (* so that TLC can (i)                                                      *)
 (* show on the model that the deviation breaks interoperability and (ii)   *)
 (* attribute a rejected file of a real trace to a *named* deviation        *)
@@ -50,8 +51,8 @@ EXTENDS Integers, Sequences, SequencesExt, FiniteSets, MpqCrypto
 CONSTANT SectorBase          \* 512 in the format ("512 * 2^block_size_shift"); MC uses 8
 
 Std  == [tail |-> FALSE, pathkey |-> FALSE, rawtable |-> FALSE, oneblock |-> FALSE, crclayout |-> FALSE]
-LibW == [tail |-> TRUE,  pathkey |-> TRUE,  rawtable |-> TRUE,  oneblock |-> FALSE, crclayout |-> TRUE]    \* library as writer
-LibR == [tail |-> TRUE,  pathkey |-> TRUE,  rawtable |-> FALSE, oneblock |-> TRUE,  crclayout |-> FALSE]   \* library as reader
+LibW == [tail |-> TRUE,  pathkey |-> TRUE,  rawtable |-> TRUE,  oneblock |-> FALSE, crclayout |-> TRUE]    \* the library's writer before the fixes
+LibR == [tail |-> TRUE,  pathkey |-> TRUE,  rawtable |-> FALSE, oneblock |-> TRUE,  crclayout |-> FALSE]   \* the library's reader before the fixes
 
 ---------------------------------------------------------------------------
 (* Little-endian fields.  `off` is a 0-based byte offset into bs.          *)
